@@ -182,7 +182,7 @@ func (v vec3) SubBad(v1 vec3) vec3 {
 
 // want:UNIFORM one term of the sum has the wrong operator.
 func (v vec3) DotBad(v1 vec3) float64 {
-	return v[0]*v1[0] + v[1]*v1[1] + v[2]+v1[2]
+	return v[0]*v1[0] + v[1]*v1[1] + v[2] + v1[2]
 }
 
 // want:SPLIT2 only the upper end is clamped.
